@@ -156,7 +156,45 @@ func ruleLITINT(c *Ctx) []Obligation {
 	keywords := map[string]bool{}
 	prefixBase := map[string]int64{}
 	var fallBase int64 = -1
-	sobj := readFn.Type().(*types.Signature).Params().At(1)
+	var sobj types.Object = readFn.Type().(*types.Signature).Params().At(1)
+	// the reader may delegate to a helper of the package (NewIntFromString → parseIntLit):
+	// follow the text parameter into the function that actually calls SetString
+	for hop := 0; hop < 3; hop++ {
+		hasSetString := false
+		ast.Inspect(rfd.Body, func(m ast.Node) bool {
+			if se, ok := m.(*ast.SelectorExpr); ok && se.Sel.Name == "SetString" {
+				hasSetString = true
+			}
+			return true
+		})
+		if hasSetString {
+			break
+		}
+		var next *ast.FuncDecl
+		var nextObj types.Object
+		ast.Inspect(rfd.Body, func(m ast.Node) bool {
+			call, ok := m.(*ast.CallExpr)
+			if !ok || next != nil {
+				return true
+			}
+			f := calleeOf(info, call)
+			if f == nil || f.Pkg() == nil || f.Pkg().Path() != pkgCONS {
+				return true
+			}
+			for i, a := range call.Args {
+				if id, ok := unparen(a).(*ast.Ident); ok && info.ObjectOf(id) == sobj {
+					if d := c.funcDecl(f); d != nil && d.Body != nil && i < f.Type().(*types.Signature).Params().Len() {
+						next, nextObj = d, f.Type().(*types.Signature).Params().At(i)
+					}
+				}
+			}
+			return true
+		})
+		if next == nil {
+			break
+		}
+		rfd, sobj = next, nextObj
+	}
 	isS := func(e ast.Expr) bool {
 		id, ok := unparen(e).(*ast.Ident)
 		return ok && info.ObjectOf(id) == sobj
@@ -650,8 +688,41 @@ func (c *Ctx) litFPDoubleForm(rfd *ast.FuncDecl, info *types.Info) []Obligation 
 	return append(obs, o)
 }
 
-// litFPPrecision: every `const precision = N` of the reader sits in a case of
-// one kind; all sites of a kind agree and equal the IEEE significand width.
+// litFPDefaultHexClause: the default clause of the reader's prefix switch (the 16-digit form).
+func litFPDefaultHexClause(rfd *ast.FuncDecl) *ast.CaseClause {
+	var def *ast.CaseClause
+	ast.Inspect(rfd.Body, func(nd ast.Node) bool {
+		sw, ok := nd.(*ast.SwitchStmt)
+		if !ok || sw.Tag != nil {
+			return true
+		}
+		hasPrefix := false
+		var d *ast.CaseClause
+		for _, cc := range sw.Body.List {
+			cl := cc.(*ast.CaseClause)
+			if cl.List == nil {
+				d = cl
+			}
+			for _, e := range cl.List {
+				if call, ok := e.(*ast.CallExpr); ok && strings.HasSuffix(exprString(call.Fun), "HasPrefix") {
+					hasPrefix = true
+				}
+			}
+		}
+		if hasPrefix && d != nil && def == nil {
+			def = d
+		}
+		return true
+	})
+	return def
+}
+
+// litFPPrecision: the significand width the reader rounds each kind to. A
+// precision site is an integer constant inside a case of one kind that reaches
+// SetPrec / big.ParseFloat (as a constant, a local constant, a local variable,
+// or an argument of a helper of this package). All sites of a kind agree and
+// equal the IEEE significand width; half and float — narrower than the double
+// the 16-digit form is decoded as — have a site inside the 16-digit branch.
 func (c *Ctx) litFPPrecision(rfd *ast.FuncDecl, info *types.Info) []Obligation {
 	var obs []Obligation
 	type site struct {
@@ -659,36 +730,99 @@ func (c *Ctx) litFPPrecision(rfd *ast.FuncDecl, info *types.Info) []Obligation {
 		val int64
 	}
 	sites := map[string][]site{}
+	intConst := func(e ast.Expr) (int64, bool) {
+		if tv := info.Types[e]; tv.Value != nil && tv.Value.Kind() == constant.Int {
+			return constant.Int64Val(tv.Value)
+		}
+		return 0, false
+	}
+	// objects used as an argument of SetPrec / ParseFloat / a function of this package
+	precArg := map[types.Object]bool{}
 	ast.Inspect(rfd.Body, func(nd ast.Node) bool {
-		cl, ok := nd.(*ast.CaseClause)
-		if !ok || len(cl.List) == 0 {
+		call, ok := nd.(*ast.CallExpr)
+		if !ok {
 			return true
 		}
-		for _, st := range cl.Body {
-			ds, ok := st.(*ast.DeclStmt)
-			if !ok {
-				continue
-			}
-			gd, ok := ds.Decl.(*ast.GenDecl)
-			if !ok {
-				continue
-			}
-			for _, sp := range gd.Specs {
-				vs, ok := sp.(*ast.ValueSpec)
-				if !ok || len(vs.Names) != 1 || vs.Names[0].Name != "precision" || len(vs.Values) != 1 {
-					continue
-				}
-				if tv := info.Types[vs.Values[0]]; tv.Value != nil {
-					if v, ok := constant.Int64Val(constant.ToInt(tv.Value)); ok {
-						for _, e := range cl.List {
-							sites[exprString(e)] = append(sites[exprString(e)], site{vs.Pos(), v})
-						}
-					}
+		relevant := false
+		if se, ok := unparen(call.Fun).(*ast.SelectorExpr); ok && (se.Sel.Name == "SetPrec" || se.Sel.Name == "ParseFloat") {
+			relevant = true
+		}
+		if f := calleeOf(info, call); f != nil && f.Pkg() != nil && f.Pkg().Path() == pkgCONS {
+			relevant = true
+		}
+		if relevant {
+			for _, a := range call.Args {
+				if id, ok := unparen(a).(*ast.Ident); ok {
+					precArg[info.ObjectOf(id)] = true
 				}
 			}
 		}
 		return true
 	})
+	ast.Inspect(rfd.Body, func(nd ast.Node) bool {
+		cl, ok := nd.(*ast.CaseClause)
+		if !ok || len(cl.List) == 0 {
+			return true
+		}
+		isKindCase := false
+		for _, e := range cl.List {
+			if strings.Contains(exprString(e), "FloatKind") {
+				isKindCase = true
+			}
+		}
+		if !isKindCase {
+			return true
+		}
+		add := func(pos token.Pos, v int64) {
+			for _, e := range cl.List {
+				sites[exprString(e)] = append(sites[exprString(e)], site{pos, v})
+			}
+		}
+		for _, st := range cl.Body {
+			ast.Inspect(st, func(m ast.Node) bool {
+				switch m := m.(type) {
+				case *ast.CaseClause:
+					return false // a nested switch has its own kind cases
+				case *ast.ValueSpec:
+					for i, nm := range m.Names {
+						if i < len(m.Values) && precArg[info.Defs[nm]] {
+							if v, ok := intConst(m.Values[i]); ok {
+								add(m.Pos(), v)
+							}
+						}
+					}
+				case *ast.AssignStmt:
+					for i, l := range m.Lhs {
+						if id, ok := l.(*ast.Ident); ok && i < len(m.Rhs) && precArg[info.ObjectOf(id)] {
+							if v, ok := intConst(m.Rhs[i]); ok {
+								add(m.Pos(), v)
+							}
+						}
+					}
+				case *ast.CallExpr:
+					if se, ok := unparen(m.Fun).(*ast.SelectorExpr); ok {
+						switch {
+						case se.Sel.Name == "SetPrec" && len(m.Args) == 1:
+							if _, isID := unparen(m.Args[0]).(*ast.Ident); !isID {
+								if v, ok := intConst(m.Args[0]); ok {
+									add(m.Pos(), v)
+								}
+							}
+						case se.Sel.Name == "ParseFloat" && len(m.Args) == 4:
+							if _, isID := unparen(m.Args[2]).(*ast.Ident); !isID {
+								if v, ok := intConst(m.Args[2]); ok {
+									add(m.Pos(), v)
+								}
+							}
+						}
+					}
+				}
+				return true
+			})
+		}
+		return true
+	})
+	def := litFPDefaultHexClause(rfd)
 	for _, kind := range sortedKeys(sites) {
 		ss := sites[kind]
 		o := Obligation{Key: "float kind " + kind + " reader precision", Pos: c.pos(ss[0].pos), Verdict: OK}
@@ -705,11 +839,24 @@ func (c *Ctx) litFPPrecision(rfd *ast.FuncDecl, info *types.Info) []Obligation {
 		case !agree:
 			o.Verdict, o.Detail = VIOL, fmt.Sprintf("the reader rounds this kind to different significand widths at different sites (%s bits): the hexadecimal and the decimal spelling of one value yield different constants", strings.Join(vals, ", "))
 		case known && ss[0].val != want:
-			o.Verdict, o.Detail = VIOL, fmt.Sprintf("the reader keeps %d significand bits for this kind; the format has %d: values are rounded to a precision the type does not have", ss[0].val, want)
+			o.Verdict, o.Detail = VIOL, fmt.Sprintf("the reader keeps %d significand bits for this kind; the format has %d (the hidden bit counts): values are rounded to a precision the type does not have", ss[0].val, want)
 		default:
 			o.Detail = fmt.Sprintf("%d sites, %s bits", len(ss), vals[0])
 		}
 		obs = append(obs, o)
+	}
+	// kinds narrower than a double are rounded inside the 16-digit branch
+	if def != nil {
+		for _, kind := range []string{"types.FloatKindHalf", "types.FloatKindFloat"} {
+			o := Obligation{Key: "float kind " + kind + " is rounded to its own precision in the 16-digit branch", Pos: c.pos(def.Pos()), Verdict: VIOL,
+				Detail: "the 16-digit form is decoded as a double; for this narrower kind no rounding to the kind's significand width happens in that branch, so a literal with more significant bits than the kind holds is stored unrounded and printing it again takes a second step to settle (the printer truncates what the reader kept)"}
+			for _, x := range sites[kind] {
+				if def.Pos() <= x.pos && x.pos < def.End() {
+					o.Verdict, o.Detail = OK, fmt.Sprintf("%d bits", x.val)
+				}
+			}
+			obs = append(obs, o)
+		}
 	}
 	return obs
 }
